@@ -53,7 +53,7 @@ def choose_items(prop, tier, seed, n, select=None, mode_fraction=0.0, delay=Fals
                 it["delay"] = {"salt": f"{seed}-{i}", "max_ms": 2.0, "p": 0.3}
             out.append(it)
         elif prior_fraction and rng.random() < prior_fraction:
-            out.append({"i": i, "prior": rng.choice([1, 1, 2])})     # instance already used on a sibling task
+            out.append({"i": i, "prior": rng.choice([1, 1, 2]), "reconf": rng.random() < 0.4})   # instance already used
         else:
             out.append(i)
     for p in pinned_probes(prop):
@@ -64,6 +64,8 @@ def choose_items(prop, tier, seed, n, select=None, mode_fraction=0.0, delay=Fals
 def item_label(item):
     if isinstance(item, int):
         return f"u{item}"
+    if "e" in item:
+        return f"e{item['e']}/{item.get('mode', 'serial')}"
     if "i" in item:
         return f"u{item['i']}/{item.get('mode', 'serial')}/{item.get('workers')}" + (f"/prior{item['prior']}" if item.get("prior") else "")
     return json.dumps(item, sort_keys=True)[:80]
